@@ -82,6 +82,16 @@ def run(ctx):
     gdir = U.gen_schema(ctx)
     H = U.build_harness(ctx, 'json_scan_diff.c', 'json_scan_diff', gdir)
     T = ctx.thorough
+    # second executable with the struct-root schema gen/c04_sroot.fbs (entry points C4S_SPt_parse_json_as_root and c04_sroot_parse_json)
+    H2 = None
+    try:
+        H2 = U.build_harness(ctx, 'json_scan_diff.c', 'json_scan_diff_sroot', gdir, defs=('-DNDEBUG', '-DC04_SROOT', '-I' + os.path.join(ctx.bdir, 'gen_sroot')))
+    except lib.BuildFailure as e:
+        msg = [l for l in e.out.split('\n') if 'error' in l][:3]
+        ctx.violation('struct-root-parse-json-uncompilable', 'the JSON parser header generated for a schema whose root_type is a STRUCT does not compile: the schema-level entry point '
+                      '<basename>_parse_json is declared with `flatcc_json_parser_flags_t flags` and defined with `int flags` (%s); no byte string can be handed to that parser' % ' | '.join(msg)[:400],
+                      {'schema': open(os.path.join(lib.ROOT, 'gen', 'c04_sroot.fbs')).read(), 'compiler_output': e.out[-1500:],
+                       'how': 'flatcc -a --json gen/c04_sroot.fbs; cc -c a file including c04_sroot_json_parser.h'})
 
     if ctx.replay_in:
         # bin/check C04 --replay <file>: run the recorded request line again on the current tree (implementation and model)
@@ -375,6 +385,18 @@ def run(ctx):
                  b'{"p":[{"x":1},{"y":2},{"x":3,"y":4},{}],"u":7}'):
         for fl in (0, 8, 8 | 16, 31, 1):
             add('array-overflow', 'Fix', fl, body)
+    # EVERY generated entry point: <T>_parse_json_as_root (above) and the schema-level <basename>_parse_json (root name `Root@schema`; for the
+    # struct-root schema `SPt` / `SPt@schema` in the second executable).  Nesting of known fields through each of them.
+    for d in (1, 50, 99, 100, 101, 127, 128, 1000, 20000):
+        inner = b'{"r":' * d + b'{"n":1}' + b'}' * d
+        for fl in (0, 4):
+            add('deep-entry', 'Rec', fl, inner, 1)
+            add('deep-entry', 'Root', fl, b'{"rec":' + inner + b'}', 1)
+            add('deep-entry', 'Root@schema', fl, b'{"rec":' + inner + b'}', 1)
+        add('deep-entry', 'Root@schema', 1, b'{"rec":' + b'{"k":[' * d + b'{}' + b']}' * d + b'}', 1)
+    for (klass_, root_, fl_, fid_, text_) in list(cases):
+        if root_ == 'Root' and (klass_ in ('valid', 'hand', 'all-flags', 'unknown-fields', 'nested-struct-object') or (klass_ in ('truncation', 'mutation', 'ends-at-end') and rng.random() < 0.15)):
+            add('schema-entry:' + klass_, 'Root@schema', fl_, text_, 1)
     # fixed length arrays of STRUCTS given with FEWER elements than declared (0, 1, n-1, n; reject_array_underflow not set): the missing elements
     # are zero padded - exactly them: members of the parent struct that FOLLOW the array keep the values given (before or after the array in the
     # text), and nothing outside the struct / the builder's data stack is written (ASan; the moving-allocator builder has near exact-size blocks)
@@ -451,10 +473,11 @@ def run(ctx):
     moving += rng.sample(rest, min(len(rest), 6000 if T else 1500))
     moving.sort()
     # last: 1 MB of nested known fields (a stack overflow kills the harness process)
+    add('deep-known-hostile', 'Root@schema', 0, b'{"rec":' + b'{"r":' * 200000, 1)
     add('deep-known-hostile', 'Rec', 0, b'{"r":' * 200000, 1)
     lines = ['parse %s %d %d %d %s' % (root, fl, fid, 1 if klass == 'array-underfill' else 0, U.hx(text)) for klass, root, fl, fid, text in cases]
     rep = U.run_resilient(H, lines)
-    tsel = sorted(set(tcases + [i for i, c in enumerate(cases) if c[0] == 'ends-at-end'] + rng.sample(range(len(cases) - 1), min(len(cases) - 1, 3000 if T else 600))))
+    tsel = sorted(set(tcases + [i for i, c in enumerate(cases) if c[0] == 'ends-at-end'] + rng.sample(range(len(cases) - 2), min(len(cases) - 2, 3000 if T else 600))))
     tsel = [i for i in tsel if len(cases[i][4]) <= 4000]
     tlines = ['parset' + lines[i][5:] for i in tsel]
     trep = U.run_resilient(H, tlines)
@@ -517,6 +540,8 @@ def run(ctx):
     valid_ok = valid_n = 0
     ub_seen = {}
     beyond = {}
+    # replies of <Root>_parse_json_as_root by (text, flags): what is specific to the schema-level entry point is what differs from them
+    twin = {(c[4], c[2]): r_ for c, r_ in zip(cases, rep) if c[1] == 'Root'}
     for ci, ((klass, root, fl, fid, text), line, r) in enumerate(zip(cases, lines, rep)):
         ctx.count(line, klass='parse:' + klass)
         n = len(text)
@@ -549,6 +574,9 @@ def run(ctx):
                 ctx.violation(key, 'generated parser %s_parse_json_as_root, flags %d: %s on a %d-byte input' % (root, fl, r[:200], n), replay)
             elif r.startswith('HANG'):
                 ctx.violation('hang:parse', 'generated parser %s did not return within 20 s (flags %d)' % (root, fl), replay)
+            elif r.startswith('CRASH') and 'stack-overflow' in r and root.endswith('@schema'):
+                ctx.violation('root-parse-json-no-nesting-limit', 'schema-level entry point <basename>_parse_json (%s) overflows the C stack on a %d-byte input nesting a known recursive table field: it opens the '
+                              'buffer itself and never installs the nesting bound that <T>_parse_json_as_root installs: %s' % (root, n, r[:160]), replay)
             elif r.startswith('CRASH') and 'stack-overflow' in r:
                 ctx.violation('deep-known-nesting-stack-overflow', 'generated parser %s overflows the C stack on %d-byte input nesting a known recursive table field (no nesting limit): %s' % (root, n, r[:160]), replay)
             else:
@@ -584,6 +612,8 @@ def run(ctx):
             end_loc, size, vrc = int(f[1]), int(f[2]), int(f[3])
             if 'ASAN-IN-VERIFY' in r:
                 ctx.violation('asan-in-verify', 'verifier over-read on a buffer produced by the parser: ' + r[:200], replay); continue
+            if root.endswith('@schema') and end_loc == 0 and n > 0:
+                beyond['<basename>_parse_json leaves end_loc at the start of the input after a successful parse'] = beyond.get('<basename>_parse_json leaves end_loc at the start of the input after a successful parse', 0) + 1
             if not (0 <= end_loc <= n):
                 ctx.violation('prop:end_loc', 'successful parse with end_loc %d outside the %d-byte input' % (end_loc, n), replay); continue
             if vrc == -2:
@@ -591,7 +621,11 @@ def run(ctx):
                               'parse of %s succeeded (%d-byte buffer) but the generated verifier did not return within 3 s' % (root, size), replay)
             elif vrc != 0:
                 ws = bool(fl & 4)
-                if root in ('Pt', 'Fix') and ws:
+                tw = twin.get((text, fl), '').split()
+                if root.endswith('@schema') and ws and tw[:1] == ['OK'] and len(tw) > 3 and tw[3] == '0':
+                    ctx.violation('root-parse-json-ignores-with-size', 'schema-level entry point <basename>_parse_json (%s) called with flatcc_json_parser_f_with_size succeeds, but the buffer has no size prefix '
+                                  '(start_buffer is called with flags 0): *_verify_as_root_with_size rejects it with %d, while the buffer of <Root>_parse_json_as_root for the same text and flags verifies' % (root, vrc), replay)
+                elif root in ('Pt', 'Fix') and ws:
                     ctx.violation('verify-reject:struct-root-with-size', 'parse of struct root %s with flatcc_json_parser_f_with_size succeeded but %s_verify_as_root_with_size rejects the buffer with error %d' % (root, root, vrc), replay)
                 elif re.search(rb'nest_s"?\s*:\s*\{', text):
                     ctx.violation('nested-struct-root-object', 'nested_flatbuffer field with a struct root given as a JSON object: parse succeeded, verifier rejects with %d' % vrc, replay)
@@ -601,6 +635,12 @@ def run(ctx):
                     ctx.violation('nested-bytes-unverified', 'nested_flatbuffer field given as raw bytes that are not a valid buffer: parse succeeded, verifier rejects the result with %d' % vrc, replay)
                 elif re.search(rb'anys"?\s*:', text) and not klass.startswith('valid') and vrc == 13 and text.count(b'[') > text.count(b']'):
                     ctx.violation('union-vector-unbalanced-accepted', 'input ending inside a union vector is reported as success; the offset vector is left open and the verifier rejects the result with %d' % vrc, replay)
+                elif root.endswith('@schema') and ws:
+                    ctx.violation('root-parse-json-ignores-with-size', 'schema-level entry point <basename>_parse_json (%s) called with flatcc_json_parser_f_with_size succeeds, but the buffer has no size prefix '
+                                  '(start_buffer is called with flags 0): *_verify_as_root_with_size rejects it with %d' % (root, vrc), replay)
+                elif root.endswith('@schema') and klass.startswith('deep'):
+                    ctx.violation('root-parse-json-no-nesting-limit', 'schema-level entry point <basename>_parse_json (%s) reports success on %d-byte input nesting a known recursive field, but the generated verifier '
+                                  'rejects the finished buffer with %d: it never installs the nesting bound that <T>_parse_json_as_root installs' % (root, n, vrc), replay)
                 elif klass.startswith('deep-known'):
                     ctx.violation('deep-known-nesting-verify-reject', 'parse of %s succeeded but the generated verifier rejects the finished buffer with %d (nesting of a known recursive field deeper than the verifier accepts)' % (root, vrc), replay)
                 else:
@@ -627,6 +667,32 @@ def run(ctx):
     for k_, n_ in sorted(beyond.items()):
         ctx.notes.append('observed, not constrained by C04 (no verdict): %s - %d case(s)' % (k_, n_))
     ctx.cov['beyond_property_observations'] = beyond
+    # the struct-root schema through both of its entry points (second executable)
+    if H2 is not None:
+        sdocs = [b'{"x":1,"y":2,"name":"ab","p":[1,2]}', b'{}', b'{"x":-2147483648}', b'{"name":"abcd"}', b'{"name":"abcde"}', b'{"name":"abc\\n"}', b'{"p":[1]}', b'{"p":[1,2,3]}', b'{"x":1', b'{"x":1.',
+                 b'{"zz":{"a":', b'{"zz":[1,{"a":1}],"y":3}', b'', b'[]', b'{"x":"q"}', b'{"y":32768}', b' { "x" : 5 } ', b'{"x":1,}']
+        scases = [(root, fl, d) for d in sdocs for root in ('SPt', 'SPt@schema') for fl in (0, 1, 4, 8, 16, 31)]
+        for d in sdocs[:6]:
+            for _ in range(20 if T else 6):
+                m = U.mutate(rng, d)
+                for root in ('SPt', 'SPt@schema'): scases.append((root, rng.choice(allflags), m))
+        slines = ['parse %s %d 0 0 %s' % (root, fl, U.hx(d)) for root, fl, d in scases]      # fid mode 0: SPt@schema writes the schema's own identifier C4SR
+        srep = U.run_resilient(H2, slines)
+        for (root, fl, d), sl, sr in zip(scases, slines, srep):
+            ctx.count(sl, klass='parse:struct-root-schema')
+            sr, _ub = U.split_ub(sr)
+            replay = {'harness': 'json_scan_diff_sroot', 'harness_line': sl, 'root': root, 'flags': fl, 'input_hex': U.hx(d), 'reply': sr[:400]}
+            f = sr.split()
+            if f[:1] not in (['OK'], ['ERR']):
+                ctx.violation('struct-root-schema:' + (U.asan_key(sr) if sr.startswith('ASAN') else 'crash'), 'struct-root schema entry point %s (flags %d): %s' % (root, fl, sr[:200]), replay); continue
+            if f[0] == 'OK':
+                if not (0 <= int(f[1]) <= len(d)): ctx.violation('prop:end_loc', 'successful parse with end_loc %s outside the input' % f[1], replay)
+                elif f[3] != '0':
+                    key = 'root-parse-json-ignores-with-size' if (root.endswith('@schema') and fl & 4) else 'verify-reject:%s' % root
+                    ctx.violation(key, 'struct-root entry point %s (flags %d) succeeds but the generated verifier%s rejects the buffer with %s' % (root, fl, ' (with_size)' if fl & 4 else '', f[3]), replay)
+            else:
+                if not (0 <= int(f[3]) <= len(d)): ctx.violation('prop:error_loc', 'failed parse: error_loc %s outside the input' % f[3], replay)
+                elif f[-2:] != ['REUSE', '0']: ctx.violation('reuse-after-failure', 'struct-root schema: reference build after a failed parse differs / failed', replay)
     ctx.notes.append('whole parsers: %d succeeded (all verified unless reported), %d failed (error_loc in range, builder reuse checked); %d/%d documents rendered from value trees parsed under flags 0' % (
         stat['ok'], stat['err'], valid_ok, valid_n))
     if valid_n and valid_ok * 10 < valid_n * 9:
